@@ -6,6 +6,6 @@ CONSTANTS
   MCFrames <- Frames2
   FrameChunks = 2
   MaxMig = 2
-  Serial = FALSE
+  Serial = TRUE
 INVARIANTS TypeOK ContentsCopied NothingElseChanged CompleteOnce OneAtATime RoutedBack InRange AllServed
 CHECK_DEADLOCK FALSE
